@@ -57,6 +57,7 @@ LINE_SPECS = {
 U_EVENT = rf'{b}*{D}+ = E "[^\n]*"{b}*'
 
 _CACHE: dict = {}
+IMPLS: list = []  # (pattern, method) of every shipped recogniser examined in this run (for model validation)
 
 
 def P(pattern: str, method: str = "fullmatch") -> rx.Pattern:
@@ -68,7 +69,10 @@ def P(pattern: str, method: str = "fullmatch") -> rx.Pattern:
 
 def impl_pattern(ctx: Ctx, r: Rule, where: Any, pattern: str, method: str) -> Optional[rx.Pattern]:
     try:
-        return P(pattern, method)
+        p_ = P(pattern, method)
+        if (pattern, method) not in IMPLS:
+            IMPLS.append((pattern, method))
+        return p_
     except rx.RxUnsupported as e:
         fail(r, ctx, where, getattr(where, "node", None), f"recogniser {pattern!r} uses a construct outside the analysed regular "
                                                          f"subset ({e}); its language cannot be decided")
